@@ -45,6 +45,19 @@ func (e *Enc) callCommon(fr *Frame, st *State, cc *ssa.CallCommon, fnv *Val, arg
 		return e.encBuiltin(fr, st, b, cc, args, rt, pos, hint)
 	}
 	// call-site assertions of the function under contract ("at call F@n assert ...")
+	fr.siteInvs, fr.siteKey = nil, ""
+	if fr.top && fr.contract != nil && len(fr.contract.CallInvariants) > 0 {
+		if fr.ranks == nil {
+			fr.ranks = computeRanks(fr.fn)
+		}
+		if r, ok := fr.ranks["call:"+fr.curCallClass][pos]; ok {
+			key := fmt.Sprintf("call:%s@%d", fr.curCallClass, r)
+			fr.siteInvs, fr.siteKey = fr.contract.CallInvariants[key], key
+			if len(fr.siteInvs) > 0 && e.dry == 0 {
+				fr.contract.callAssertSeen(key)
+			}
+		}
+	}
 	if fr.top && fr.contract != nil && len(fr.contract.CallAsserts) > 0 && e.dry == 0 {
 		if fr.ranks == nil {
 			fr.ranks = computeRanks(fr.fn)
@@ -115,9 +128,10 @@ func (e *Enc) callCommon(fr *Frame, st *State, cc *ssa.CallCommon, fnv *Val, arg
 		// the function value itself is bound to the name `callee` in a functype contract
 		return e.applyContract(fr, st, c, append([]*Val{fnv}, args...), rt, hint, pos)
 	}
-	// unknown function VALUE: a closure may have captured (and may write) anything, whatever its parameter list looks like;
-	// the function value itself therefore counts as an argument that reaches the heap (defaultCall havocs everything)
-	return e.defaultCall(fr, st, dk, append([]*Val{fnv}, args...), rt, hint, pos)
+	// an unknown function VALUE may be a closure over anything: whatever its arguments are, it can mutate every heap
+	// object and every component of the abstract state
+	e.havocAll(st)
+	return e.defaultCall(fr, st, dk, args, rt, hint, pos)
 }
 
 // implementers: the concrete types declared in the root packages (T and *T, in a fixed order) whose method set satisfies
@@ -501,8 +515,51 @@ func (e *Enc) applyContract(fr *Frame, st *State, c *Contract, args []*Val, rt t
 		} else {
 			menv := &Env{e: e, vars: vars, st: pre, old: pre, pkgPath: c.PkgPath, imports: c.Imports}
 			for i, m := range c.Modifies {
+				cond := "true"
+				if i < len(c.ModWhen) && c.ModWhen[i] != nil {
+					t, err := menv.evalBool(c.ModWhen[i])
+					if err != nil {
+						e.unsupportedf("modifies condition of %s: %v", c.Key, err)
+					} else {
+						cond = t
+					}
+				}
+				if cond == "false" {
+					continue // this call cannot modify the target: it is neither havocked nor counted as written
+				}
+				if id, ok := m.(*ECall); ok {
+					if fid, ok := id.Fun.(*EIdent); ok && fid.Name == "effects" && len(id.Args) == 1 {
+						e.havocEffects(fr, st, menv, id.Args[0], c)
+						continue
+					}
+				}
+				if cond == "true" {
+					if err := menv.havocTarget(st, m); err != nil {
+						e.unsupportedf("modifies %s of %s: %v", c.ModSrc[i], c.Key, err)
+					}
+					continue
+				}
+				// conditional havoc: new value where the condition holds, the old value elsewhere
+				before := map[string]string{}
+				for k, t := range st.heap {
+					before[k] = t
+				}
 				if err := menv.havocTarget(st, m); err != nil {
 					e.unsupportedf("modifies %s of %s: %v", c.ModSrc[i], c.Key, err)
+					continue
+				}
+				for _, k := range sortedKeys(st.heap) {
+					t := st.heap[k]
+					old, had := before[k]
+					if had && old == t {
+						continue
+					}
+					if !had {
+						old = e.heapGet(pre, k, e.heapSort[k])
+					}
+					n := e.fresh(k, e.heapSort[k])
+					e.assert(eq(n, ite(cond, t, old)))
+					st.heap[k] = n
 				}
 			}
 			e.bumpAlloc(st)
@@ -525,6 +582,9 @@ func (e *Enc) applyContract(fr *Frame, st *State, c *Contract, args []*Val, rt t
 		if err != nil {
 			e.unsupportedf("ensures of %s: %v", c.Key, err)
 			continue
+		}
+		if en.Trusted && e.dry == 0 {
+			e.assumedUsed["trusted ensures of "+c.Key]++
 		}
 		e.assume(st, g)
 	}
@@ -633,6 +693,8 @@ func (e *Enc) encBuiltin(fr *Frame, st *State, b *ssa.Builtin, cc *ssa.CallCommo
 				t := "(" + f + " (select " + dom + " " + x.L[0].T + "))"
 				e.assert("(<= 0 " + t + ")")
 				e.assert("(= (" + f + " ((as const (Array " + ksort + " Bool)) false)) 0)")
+				// a (finite) map has no entries iff its key set is empty
+				e.assert("(= (= " + t + " 0) (= (select " + dom + " " + x.L[0].T + ") ((as const (Array " + ksort + " Bool)) false)))")
 				return &Val{T: rt, L: []Sc{{ite(eq(x.L[0].T, "0"), "0", t), "Int"}}}
 			}
 		case *types.Array:
@@ -764,6 +826,10 @@ func (e *Enc) encAppend(fr *Frame, st *State, cc *ssa.CallCommon, args []*Val, r
 		outside := "(or (< q " + no + ") (>= q (+ " + no + " " + nlen + ")))"
 		e.assert("(forall ((q Int)) (! (and (=> " + inOld + " (= (select " + na + " q) " + oldAt + ")) (=> " + inNew + " (= (select " + na + " q) " + src + ")) (=> (and " + fits + " " + outside + ") (= (select " + na + " q) (select (select " + h + " " + base + ") q)))) :pattern ((select " + na + " q))))")
 		e.writeTarget = nb
+		if !isStr {
+			// appending exactly one element (the common case): the new cell directly
+			e.assert("(=> (= " + tlen + " 1) (= (select " + na + " (+ " + no + " " + ln + ")) (select (select " + h + " " + tbase + ") " + toff + ")))")
+		}
 		e.withRef(base, func() { e.heapSet(st, k, sorts[i], "(store "+h+" "+nb+" "+na+")") }) // base itself, or a new backing
 		e.writeTarget = ""
 		if b, ok := sl.Elem().Underlying().(*types.Basic); ok && b.Kind() == types.Uint8 && !isStr && len(keys) == 1 {
@@ -805,4 +871,106 @@ func (e *Enc) encCopy(fr *Frame, st *State, cc *ssa.CallCommon, args []*Val, rt 
 		e.heapSet(st, k, sorts[i], "(store "+h+" "+d.L[0].T+" "+na+")")
 	}
 	return &Val{T: rt, L: []Sc{{n, "Int"}}}
+}
+
+// havocEffects: `modifies effects(f)` at a call site — the callee may do whatever calling the function value f does, any
+// number of times. When f is a closure known at encode time its body is encoded once in a dry run to learn which heap
+// keys it writes (transitively through the contracts of its callees); exactly those are havocked. Otherwise everything is.
+func (e *Enc) havocEffects(fr *Frame, st *State, menv *Env, arg Expr, c *Contract) {
+	v, err := menv.eval(arg)
+	if err != nil || v == nil || v.Clos == nil || v.Clos.Fn == nil || v.Clos.Fn.Blocks == nil {
+		e.havocAll(st)
+		return
+	}
+	fn := v.Clos.Fn
+	invs, siteKey := fr.siteInvs, fr.siteKey
+	// call-site invariant: holds before the call
+	for i, inv := range invs {
+		if e.dry > 0 {
+			break
+		}
+		g, err := e.envFor(fr, st).evalBool(inv.E)
+		if err != nil {
+			e.unsupportedf("%s invariant %s: %v", siteKey, inv.Src, err)
+			continue
+		}
+		e.addObl(&Obligation{Name: siteKey + ":invariant.establish:" + clauseName(inv, i), Kind: "invariant-establish", Label: inv.Label, Clause: "at " + siteKey + ": " + inv.Src, Reach: st.reach, Goal: g})
+	}
+	d := e.beginDry(fr)
+	{
+		hst := st.clone()
+		var args []*Val
+		for _, p := range fn.Params {
+			args = append(args, e.freshVal(hst, "fx!"+p.Name(), p.Type()))
+		}
+		var rt types.Type
+		switch fn.Signature.Results().Len() {
+		case 0:
+		case 1:
+			rt = fn.Signature.Results().At(0).Type()
+		default:
+			rt = fn.Signature.Results()
+		}
+		e.inline(fr, hst, fn, v.Clos.Bind, args, rt, "fx", fn.Pos())
+	}
+	written := e.endDry(fr, d)
+	nonLocal := e.dryNonLocal
+	if written["*"] {
+		e.havocAll(st)
+		return
+	}
+	for _, k := range sortedKeys(written) {
+		if strings.HasPrefix(k, "RV|") {
+			continue
+		}
+		if _, ok := e.heapSort[k]; ok {
+			before := e.heapGet(st, k, e.heapSort[k])
+			e.heapHavoc(st, k)
+			// every write of the function value to this component goes through an object allocated by the current
+			// function (captured locals): objects that existed when the current function started are untouched
+			if !nonLocal[k] && refIndexedKey(k) {
+				e.assert("(forall ((r Int)) (! (=> (<= r alloc@0) (= (select " + st.heap[k] + " r) (select " + before + " r))) :pattern ((select " + st.heap[k] + " r))))")
+			} else if nonLocal[k] {
+				e.noteNonLocal(k)
+			}
+		}
+	}
+	if len(invs) == 0 {
+		return
+	}
+	// the havocked state is an arbitrary state reachable by running the function value some number of times: assume the
+	// invariant there, show that one more run preserves it (this run is a real encoding: the obligations inside the
+	// function value's body are generated under the invariant), then continue from the havocked state
+	for _, inv := range invs {
+		if g, err := e.envFor(fr, st).evalBool(inv.E); err == nil {
+			e.assume(st, g)
+		}
+	}
+	if e.dry > 0 {
+		return
+	}
+	run := st.clone()
+	var args []*Val
+	for _, p := range fn.Params {
+		args = append(args, e.freshVal(run, "fxi!"+p.Name(), p.Type()))
+	}
+	var rt types.Type
+	switch fn.Signature.Results().Len() {
+	case 0:
+	case 1:
+		rt = fn.Signature.Results().At(0).Type()
+	default:
+		rt = fn.Signature.Results()
+	}
+	e.inline(fr, run, fn, v.Clos.Bind, args, rt, "fxi", fn.Pos())
+	if run.reach != "false" {
+		for i, inv := range invs {
+			g, err := e.envFor(fr, run).evalBool(inv.E)
+			if err != nil {
+				e.unsupportedf("%s invariant %s: %v", siteKey, inv.Src, err)
+				continue
+			}
+			e.addObl(&Obligation{Name: siteKey + ":invariant.preserve:" + clauseName(inv, i), Kind: "invariant-preserve", Label: inv.Label, Clause: "at " + siteKey + " (one run of the function value): " + inv.Src, Reach: run.reach, Goal: g})
+		}
+	}
 }
